@@ -6,7 +6,7 @@ DD = dict(unit="hfiledd_u.c", file="hdf/src/hfiledd.c", objbits=10, cex_unwind=1
                    "HAinit_group/tbbtdmake stubs (units/hfiledd_u.c)", "HEpush/HEreport/HEclear (stubs/h4v_err.h)"])
 ob("HTIupdate_dd", ["C02", "C16", "C17", "C12"], entry="h_HTIupdate_dd", enforce="HTIupdate_dd", **DD)
 ob("HTInew_dd_block", ["C02", "C12", "C16", "C17"], entry="h_HTInew_dd_block", enforce="HTInew_dd_block", mode="bounded",
-   bound="ndds == 4 DDs per block (HDmemfill/memcpy loops unwound); 1 or 2 existing blocks; all offsets symbolic", unwind=8,
+   bound="ndds == 4 DDs per block (HDmemfill/memcpy loops unwound); 1, 2 or 3 existing blocks; all offsets symbolic", unwind=8,
    defines=["H4V_MAXNDDS=4"], **DD)
 SYNC = dict(mode="bounded", unwind=8, timeout=900)
 for kk, kh, tier in [(0, 0, "quick"), (5, 2, "quick"), (11, 5, "quick"), (1, 1, "thorough"), (2, 3, "thorough"), (3, 4, "thorough"),
